@@ -8,6 +8,9 @@ CONSTANTS
   ChunkMax = 2
   Parts <- Both
   Interleave = TRUE
+  BodySizes = {}
+  MaxArrive = 0
+  RepeatGuard = TRUE
   CheckDigest = TRUE
 VIEW mcView
 INVARIANTS TypeOK FwdOwnDigest SyncerOwnDigest KeptOwnDigest CacheOnlyLegit
